@@ -36,7 +36,7 @@ def describe(tier):
         "scan_node activations - 1, read by the registry wrapper) and the multiset of (level, searched value) passes equals that of the reference procedure run with budget k (so descending into decoder-supplied sub-structure costs one level per nesting level); the scan terminates although modes rd/rk/dT make every decoded value "
         "decodable again. Oracle (ii) for every pair (k, k+1): tree(k) == tree(k+1) with every node produced by the deepest search pass "
         "(level k) removed -- which implies the order-preserving sub-list relation of every child list. 'layers' = base64^n, hex^n, "
-        "(concat o base64)^n for n=1..12 on the shipped registry x k=-1..13. After-failure axis: a scan with limit 1..6 is aborted by RuntimeError / KeyboardInterrupt escaping from a user decoder at every recursion level; afterwards the same and a fresh scanner must return the k-limited trees computed beforehand for k=-1..12. Decoded-volume axis: one scan producing ~9 x s bytes of decoded data (s up to 3 MiB, thorough 32 MiB) before a later sibling that decodes again, at k=-1..12. Caller-stack axis: every 1-hit configuration (N=3, modes rd/rk/rp) and base64^12 at k=-1..13 is "
+        "(concat o base64)^n for n=1..12 on the shipped registry x k=-1..13. After-failure axis: a scan with limit 1..6 is aborted by RuntimeError / KeyboardInterrupt escaping from a user decoder at every recursion level; afterwards the same and a fresh scanner must return the k-limited trees computed beforehand for k=-1..12. Decoded-volume axis: one scan producing ~9 x s bytes of decoded data (s up to 3 MiB, thorough 32 MiB) before a later sibling that decodes again, at k=-1..12. Repeated-value axis: documents in which the SAME decoded value is reached at two (or three) different nesting depths - every ordered pair of synthetic chains '#a<pad> #b<pad>' (a != b in 1..7, optional third chain) and every ordered pair b64^i(P), b64^j(P) (i != j in 0..3, P holding two further base64 layers) on the shipped registry, with the value's size over a ladder - at every k. Caller-stack axis: every 1-hit configuration (N=3, modes rd/rk/rp) and base64^12 at k=-1..13 is "
         f"scanned from a recursive caller with (frames already on the stack, recursion limit) in {CALLER_DEPTHS}: same passes as the model, same tree as from a shallow caller "
         "(a scan for which the caller left too little stack, RecursionError, is skipped). Non-trivial = a pair (k,k+1) whose trees differ.",
         "bounds": BOUNDS[tier],
@@ -60,7 +60,16 @@ def plan(tier, seed):
     for s in VOLUMES[tier]:
         units.append((tier, "volume", s))
     units.append((tier, "after-failure"))
+    for pad in REPEAT_PADS[tier]:
+        for a in range(1, 8):
+            units.append((tier, "repeats", pad, a))
+        units.append((tier, "repeats-shipped", pad))
     return units
+
+
+# the SAME decoded value reached at two different nesting depths of one document (sizes over a ladder: anything that remembers what a value
+# expanded to must also remember how much budget was left)
+REPEAT_PADS = {"quick": (0, 200, 1100, 5000), "thorough": (0, 200, 1023, 1024, 1100, 4096, 5000, 70000)}
 
 
 # total amount of decoded data produced by ONE scan (a budget on it would make a deeper limit starve later siblings): one blob of s bytes under
@@ -349,6 +358,43 @@ def run_unit(unit, rec):
         w = {"engine": "volume", "size": s, "ks": list(ks)}
         check_ladder(rec, lambda k: trees.iscan([_peel], data, k), data, ks, w, s // 1024, ("volume", s))
         rec.sample({"volume": s, "total_decoded_bytes": 9 * s, "ks": "-1..12"})
+    elif kind == "repeats":
+        pad, a = unit[2], unit[3]
+        ks = tuple(range(-1, 11))
+        n = 0
+        for b2 in range(1, 8):
+            if a == b2:
+                continue
+            for c in (None, 1, 4):
+                # chain a and chain b2 reach the common values '#j<pad>' (j < min(a, b2)) at depths that differ by |a - b2|; an optional third
+                # chain c; the padding itself holds two further tokens when it is long enough
+                rest = b"x" * pad
+                toks = [b"#" + bytes([0x30 + a]) + rest, b"#" + bytes([0x30 + b2]) + rest] + ([b"#" + bytes([0x30 + c]) + rest] if c else [])
+                data = b" ".join(toks)
+                w = {"engine": "repeats", "pad": pad, "chains": [a, b2] + ([c] if c else []), "ks": list(ks)}
+                check_ladder(rec, lambda k: trees.iscan([_peel], data, k), data, ks, w, pad // 100 + a + b2, ("repeats", pad, a, b2, c))
+                n += 1
+        rec.sample({"repeats": "same value at two depths", "pad": pad, "first_chain": a, "documents": n})
+    elif kind == "repeats-shipped":
+        pad = unit[2]
+        reg = streams.registry()
+        inner = b"start " + base64.b64encode(base64.b64encode(b"get http://example.com/a.exe now 8.8.4.4 ok!")) + b" end " + b"-" * pad
+        ks = tuple(range(-1, 9))
+        n = 0
+        for i in range(0, 4):
+            for j in range(0, 4):
+                if i == j:
+                    continue
+                x, y = inner, inner
+                for _ in range(i):
+                    x = base64.b64encode(x)
+                for _ in range(j):
+                    y = base64.b64encode(y)
+                data = b"$a='" + x + b"'\n$b='" + y + b"'\n"
+                w = {"engine": "repeats-shipped", "pad": pad, "i": i, "j": j, "ks": list(ks)}
+                check_ladder(rec, lambda k: trees.iscan(reg, data, k), data, ks, w, pad // 100 + i + j, ("repeats-shipped", pad, i, j), tolerant=True)
+                n += 1
+        rec.sample({"repeats-shipped": "b64^i(P) and b64^j(P) in one document", "pad": pad, "documents": n})
     elif kind == "layers":
         reg = streams.registry()
         for n in range(1, b["layers"] + 1):
@@ -371,6 +417,10 @@ def replay(w, rec):
         run_after_failure(rec)
     elif eng == "volume":
         run_unit(("quick", "volume", w["size"]), rec)
+    elif eng == "repeats":
+        run_unit(("quick", "repeats", w["pad"], w["chains"][0]), rec)
+    elif eng == "repeats-shipped":
+        run_unit(("quick", "repeats-shipped", w["pad"]), rec)
     elif eng == "layers-callstack":
         run_unit(("quick", "callstack", tuple(w["caller"])), rec)
     elif eng == "stream-ladder":
